@@ -20,6 +20,7 @@ demo() {
   esac
   LIBS="-L$W/_build/mptcore -lmptcore -Wl,-rpath,$W/_build/mptcore"
   if grep -q "stream.h\|mptio" "$DEMO"; then LIBS="$LIBS -L$W/_build/mptio -lmptio -Wl,-rpath,$W/_build/mptio"; fi
+  if grep -q "values.h\|layout.h\|history.h\|mpt_output_bind\|mpt_mapping" "$DEMO" "$SRC"/*.h 2>/dev/null; then LIBS="$LIBS -L$W/_build/mptplot -lmptplot -Wl,-rpath,$W/_build/mptplot -L$W/_build/mptio -lmptio -Wl,-rpath,$W/_build/mptio"; fi
   if grep -q "mpt++\|io.h\|namespace mpt\|mpt::" "$DEMO"; then LIBS="$LIBS -L$W/_build/mptplot -lmptplot -Wl,-rpath,$W/_build/mptplot -L$W/_build/mptio -lmptio -Wl,-rpath,$W/_build/mptio -L$W/_build/mpt++ -lmpt++ -Wl,-rpath,$W/_build/mpt++"; fi
   ARG=""
   if [ -f "$SRC/plugin.c" ]; then cp "$SRC/plugin.c" "$DST/"; cc -shared -fPIC -I"$W/mptcore" "$SRC/plugin.c" -o "$W/plugin.so" || return 99; ARG="$W/plugin.so"; fi
